@@ -46,6 +46,7 @@ T1dFails ==
     LET u == Ev.u v == Ev.v s == Ev.s d == Ev.d a == Ev.alloc
         cost == [i \in 1..Len(v) |-> [j \in 1..Len(u) |-> Abs(u[j] - v[i])]] IN
     (IF Ev.fate # "ok" THEN {F("C14", <<"abnormal end", Ev.fate>>, "t1d-fate")} ELSE
+     IF ~Ev.units THEN {F("note", <<"quantities not in whole units", Ev.qscale>>, "t1d-not-in-units")} ELSE
      (IF TFeasible(d, s, a) THEN {} ELSE {F("C14", <<"plan infeasible">>, "t1d-feasible")}) \cup
      (IF TFeasible(d, s, a) /\ ~CertOKSplit(d, s, cost, a, Ev.poth, Ev.potl) THEN {F("C14", <<"plan not of minimum cost">>, "t1d-optimal")} ELSE {}) \cup
      (IF Assign1dOK(u, v, s, d, a, Ev.assign) THEN {} ELSE {F("C14", <<"rounded assignment", Ev.assign>>, "t1d-assign")}))
